@@ -108,7 +108,7 @@ DoCel(ps, c) ==
   IN
   CASE c.ctype = 0 ->
          IF ~PixelsWellSized(ps, c.px) THEN Soft(ps, "pixel_bytes")
-         ELSE IF Len(c.px) < c.w * c.h THEN Soft(ps, "raw_cel_short")
+         ELSE IF Len(c.px) < SatMul(c.w, c.h) THEN Soft(ps, "raw_cel_short")
          ELSE add([base EXCEPT !.px = SubSeq(c.px, 1, c.w * c.h)])      \* extra bytes are never read
     [] c.ctype = 1 -> add([base EXCEPT !.kind = "linked", !.link = c.link, !.w = 0, !.h = 0])
     [] c.ctype = 2 ->
@@ -181,7 +181,9 @@ DoOldPalette(ps, c, sixbit) ==
   ELSE LET res == OldPackets(c.packets, 1, 0, <<>>)
            raw == res.m IN
        IF ~res.ok THEN Soft(ps1, "old_palette_short")
-       ELSE IF sixbit /\ \E k \in DOMAIN raw : \E j \in 1..3 : raw[k][j] > 63 THEN Soft(ps1, "six_bit_range")
+       \* every component that is read is range-checked, also in entries a later packet overwrites
+       ELSE IF sixbit /\ \E p \in DOMAIN c.packets : \E i \in 1..PacketCount(c.packets[p]) : \E j \in 1..3 : c.packets[p].rgb[i][j] > 63
+            THEN Soft(ps1, "six_bit_range")
        ELSE [ps1 EXCEPT !.pal = [origin |-> "old",
                m |-> [k \in DOMAIN raw |->
                         [rgba |-> IF sixbit THEN <<Scale6(raw[k][1]), Scale6(raw[k][2]), Scale6(raw[k][3]), 255>>
@@ -275,7 +277,7 @@ CelFaults(ps, c) ==
     (IF ly.ltype = 1 THEN {"cel_on_group_layer"} ELSE {})
     \cup
     (CASE c.kind = "raw" ->
-            (IF Len(c.px) # c.w * c.h THEN {"cel_size_mismatch"} ELSE {})
+            (IF Len(c.px) # SatMul(c.w, c.h) THEN {"cel_size_mismatch"} ELSE {})
             \cup (IF c.w = 0 \/ c.h = 0 THEN {"empty_cel_rectangle"} ELSE {})
             \cup (IF ly.ltype = 2 THEN {"image_cel_on_tilemap_layer"} ELSE {})
        [] c.kind = "linked" ->
@@ -285,7 +287,7 @@ CelFaults(ps, c) ==
             IF ly.ltype # 2 THEN {"tilemap_cel_outside_tilemap_layer"}
             ELSE LET ti == TilesetIdx(ps, ly.tileset[1]) IN
                  IF ti = 0 THEN {}   \* reported once as missing_tileset
-                 ELSE (IF Len(c.tiles) # c.w * c.h THEN {"tilemap_size_mismatch"} ELSE {})
+                 ELSE (IF Len(c.tiles) # SatMul(c.w, c.h) THEN {"tilemap_size_mismatch"} ELSE {})
                       \cup (IF \E k \in DOMAIN c.tiles : c.tiles[k] >= ps.tilesets[ti].count THEN {"tile_id_out_of_range"} ELSE {}))
 
 SoftFaults(ps) ==
@@ -294,7 +296,7 @@ SoftFaults(ps) ==
   \cup (IF \E i \in DOMAIN ps.layers : ps.layers[i].ltype = 2 /\ TilesetIdx(ps, ps.layers[i].tileset[1]) = 0
         THEN {"missing_tileset"} ELSE {})
   \cup (IF \E i \in DOMAIN ps.tilesets : ps.tilesets[i].tw = 0 \/ ps.tilesets[i].th = 0 THEN {"zero_tile_size"} ELSE {})
-  \cup (IF \E i \in DOMAIN ps.tilesets : LET t == ps.tilesets[i] IN t.haspx /\ Len(t.px) # t.count * t.tw * t.th
+  \cup (IF \E i \in DOMAIN ps.tilesets : LET t == ps.tilesets[i] IN t.haspx /\ Len(t.px) # SatMul(t.count, SatMul(t.tw, t.th))
         THEN {"tileset_size_mismatch"} ELSE {})
   \cup UNION {CelFaults(ps, ps.cels[i]) : i \in DOMAIN ps.cels}
 
